@@ -175,8 +175,9 @@ CHECKS = {
     "C10": dict(
         category="exploration",
         text="Context.tla defines the context space (8 hash seeds x 6 orders of the file arguments x 241 sequences of <=2 unrelated prior builds in the "
-             "same interpreter, each with its own options: same / python 3.10 / win32 + 3.11 + loose, x 5 worlds incl. an import cycle with diagnostics in "
-             "every module and misspelt stdlib imports) and the non-interference statement for the cold build and the warm build that follows it; TLC enumerates and emits every configuration, each is executed on the "
+             "same interpreter, each with its own options: same / python 3.10 / win32 + 3.11 + loose, x 6 worlds incl. an import cycle with diagnostics in "
+             "every module, misspelt stdlib imports, and diagnostics that list names / depend on the inference mode (bundled typeshed), the last also measured with non-default options "
+             "of its own) and the non-interference statement for the cold build and the warm build that follows it; TLC enumerates and emits every configuration, each is executed on the "
              "real code in an interpreter started with that PYTHONHASHSEED and compared with the baseline context: diagnostics byte for byte "
              "(as a set across file orders), cache records byte for byte under a logical clock, and the output of a warm run in the same interpreter (against the cold output and, byte for byte, against the baseline's warm output). "
              "The repository's check cases (7.7 k; quick 1/10, thorough 1/2) are built cold and warm under 2-3 hash seeds: text AND order of the messages must agree. "
